@@ -355,12 +355,10 @@ variable {sub : Nat → Nat → Bool}
 include refl trans
 
 /-- `cxOnePoint` maps two well-formed well-typed trees to two such trees (each for its own root
-slot) and conserves the total node count.  `hobj`: the code switches to its untyped shortcut
-(all indices of both trees are candidates) when `ind1.root.ret` is `object`; that is type-safe only
-in a loosely typed set, where every type is accepted everywhere. -/
+slot) and conserves the total node count — for every primitive set, loosely or strongly typed,
+whatever the root returns (it always matches return types). -/
 theorem cx_closed {r1 r2 : Nat} {ind1 ind2 o1 o2 : List Prim} {tp tp' : Tape}
     (h1 : WellFormed sub r1 ind1) (h2 : WellFormed sub r2 ind2)
-    (hobj : ∀ p, ind1[0]? = some p → p.ret = objT → ∀ a b, sub a b = true)
     (h : cxOnePoint ind1 ind2 tp = some (o1, o2, tp')) :
     WellFormed sub r1 o1 ∧ WellFormed sub r2 o2 ∧ o1.length + o2.length = ind1.length + ind2.length := by
   rw [wellFormed_iff_typed] at h1 h2 ⊢
@@ -368,46 +366,24 @@ theorem cx_closed {r1 r2 : Nat} {ind1 ind2 o1 o2 : List Prim} {tp tp' : Tape}
   unfold cxOnePoint at h
   split at h
   · simp at h; obtain ⟨rfl, rfl, _⟩ := h; exact ⟨h1, h2, rfl⟩
-  · cases ind1 with
-    | nil => simp at h
-    | cons r l1 =>
-      simp only at h
-      split at h
-      · rename_i hr
-        split at h
-        · simp at h
-        · rename_i tp1 _
-          have hall := hobj r (by simp) hr
-          refine swapAt_spec trans refl h1 h2 ?_ h
-          intro i1 hi1 i2 hi2
-          obtain ⟨_, p1, hp1, _⟩ := mem_idxFrom1 hi1
-          obtain ⟨_, p2, hp2, _⟩ := mem_idxFrom1 hi2
-          exact ⟨p1, p2, hp1, hp2, hall _ _, hall _ _⟩
-      · split at h
-        · split at h
-          · simp at h
-          · rename_i τ tp1 _
-            refine swapAt_spec trans refl h1 h2 ?_ h
-            intro i1 hi1 i2 hi2
-            obtain ⟨_, p1, hp1, hf1⟩ := mem_idxFrom1 hi1
-            obtain ⟨_, p2, hp2, hf2⟩ := mem_idxFrom1 hi2
-            simp at hf1 hf2
-            exact ⟨p1, p2, hp1, hp2, by rw [hf1, hf2]; exact refl _, by rw [hf1, hf2]; exact refl _⟩
-        · simp at h; obtain ⟨rfl, rfl, _⟩ := h; exact ⟨h1, h2, rfl⟩
+  · simp only at h
+    split at h
+    · split at h
+      · simp at h
+      · rename_i τ tp1 _
+        refine swapAt_spec trans refl h1 h2 ?_ h
+        intro i1 hi1 i2 hi2
+        obtain ⟨_, p1, hp1, hf1⟩ := mem_idxFrom1 hi1
+        obtain ⟨_, p2, hp2, hf2⟩ := mem_idxFrom1 hi2
+        simp at hf1 hf2
+        exact ⟨p1, p2, hp1, hp2, by rw [hf1, hf2]; exact refl _, by rw [hf1, hf2]; exact refl _⟩
+    · simp at h; obtain ⟨rfl, rfl, _⟩ := h; exact ⟨h1, h2, rfl⟩
 
 omit refl trans in
 example : WellFormed exSub 1 [pAdd, pOne, pOne] ∧ WellFormed exSub 1 [pAdd, pTrue, pAdd, pOne, pOne] ∧
-    (∀ p, [pAdd, pOne, pOne][0]? = some p → p.ret = objT → ∀ a b, exSub a b = true) ∧
     cxOnePoint [pAdd, pOne, pOne] [pAdd, pTrue, pAdd, pOne, pOne] [.pick 1 1, .choice 2 0, .choice 3 0] =
       some ([pAdd, pAdd, pOne, pOne, pOne], [pAdd, pTrue, pOne], []) :=
-  ⟨ex_wf3, ex_wf5, by intro p hp hr; simp at hp; subst hp; simp [pAdd, objT] at hr, by rfl⟩
-
-omit refl trans in
-/-- the loosely typed instance of `hobj`: the root returns `object` and every type is accepted everywhere -/
-example : (([⟨"add", 0, [0, 0], .prim, ""⟩, ⟨"x", 0, [], .term, "x"⟩, ⟨"x", 0, [], .term, "x"⟩] : List Prim)[0]?).map (·.ret) = some objT ∧
-    (∀ a b, subTrue a b = true) ∧
-    WellFormed subTrue 0 [⟨"add", 0, [0, 0], .prim, ""⟩, ⟨"x", 0, [], .term, "x"⟩, ⟨"x", 0, [], .term, "x"⟩] :=
-  ⟨by decide, fun _ _ => rfl, wellFormed_iff_typed.2 (by decide)⟩
+  ⟨ex_wf3, ex_wf5, by rfl⟩
 
 /-- `cxOnePointLeafBiased`: same guarantees, for every `termpb` (it always matches return types). -/
 theorem cxlb_closed {r1 r2 : Nat} {ind1 ind2 o1 o2 : List Prim} {termpb : Float} {tp tp' : Tape}
